@@ -145,6 +145,121 @@ def run (st : St) (rs : List Req) : St := rs.foldl (step ds cfg val jac) st
 
 end
 
+/-! ### Containers of the user's Jacobian
+
+The user's Jacobian callable returns a dense array or a scipy sparse matrix (CSR, CSC, COO, LIL …).
+A sparse matrix is abstracted to its list of stored entries `(row, column, value)` (duplicates add
+up in `todense`) and the compressed format it is in; the format only decides what the scipy
+attribute `indices` means (column indices for CSR, row indices for CSC, absent for COO).
+`_preprocess_function` builds the Jacobian sequence `jac → [to_dense] → normalize_grad`
+(`to_dense` is dropped with `support_sparse_jacobian`), `ProblemFunction._compute_jacobian_db_norm`
+then applies `unnormalize_grad` to what the sequence returned to get the recorded Jacobian. -/
+
+inductive SpFmt where
+  | csr | csc | coo
+  deriving Repr, DecidableEq
+
+structure Sparse where
+  fmt : SpFmt
+  nrows : Nat
+  ncols : Nat
+  entries : List (Nat × Nat × Rat)
+  deriving Repr
+
+/-- Coefficient `(i, j)` of the matrix a sparse container denotes (duplicate entries add up). -/
+def Sparse.coef (s : Sparse) (i j : Nat) : Rat :=
+  ((s.entries.filter (fun e => e.1 == i && e.2.1 == j)).map (fun e => e.2.2)).sum
+
+/-- `todense()` / `toarray()`. -/
+def Sparse.toDense (s : Sparse) : Mat :=
+  (List.range s.nrows).map (fun i => (List.range s.ncols).map (fun j => s.coef i j))
+
+/-- Sparse branch of `DesignSpace.unnormalize_vect` / `normalize_vect` on a gradient: the container
+    is brought to CSR (whose `indices` are the column indices), then `data *= factor[indices]`. -/
+def Sparse.scaleCols (f : Nat → Rat) (s : Sparse) : Sparse :=
+  { s with fmt := .csr, entries := s.entries.map (fun e => (e.1, e.2.1, e.2.2 * f e.2.1)) }
+
+/-- What the user's Jacobian callable returns, and what the Jacobian sequence returns. -/
+inductive UserJac where
+  | dense (m : Mat)
+  | sparse (s : Sparse)
+  deriving Repr
+
+/-- The matrix a container denotes. -/
+def UserJac.view : UserJac → Mat
+  | .dense m => m
+  | .sparse s => s.toDense
+
+/-- `_norm_factor[j]` on the normalisable components, 1 elsewhere: the factor `normalize_grad`
+    applies to column `j`. -/
+def colFactor (ds : DS) (j : Nat) : Rat :=
+  match ds.normMask[j]?, ds.flatLb[j]?, ds.flatUb[j]? with
+  | some true, some l, some u => scaleOf l u
+  | _, _, _ => 1
+
+/-- `_norm_factor_inv[j]` on the normalisable components, 1 elsewhere (`unnormalize_grad`). -/
+def colFactorInv (ds : DS) (j : Nat) : Rat :=
+  match ds.normMask[j]?, ds.flatLb[j]?, ds.flatUb[j]? with
+  | some true, some l, some u => invScaleOf l u
+  | _, _, _ => 1
+
+/-- The Jacobian evaluation sequence after the user's callable:
+    `[to_dense unless support_sparse_jacobian] → [normalize_grad with normalized inputs]`. -/
+def jacSeq (ds : DS) (normalized supportSparse : Bool) (u : UserJac) : UserJac :=
+  match u with
+  | .dense m => .dense (if normalized then m.map ds.normalizeGrad else m)
+  | .sparse s =>
+    if supportSparse then .sparse (if normalized then s.scaleCols (colFactor ds) else s)
+    else .dense (if normalized then s.toDense.map ds.normalizeGrad else s.toDense)
+
+/-- `unnormalize_grad` of what the sequence returned (normalized mode): the recorded Jacobian. -/
+def recSeq (ds : DS) (normalized : Bool) (jn : UserJac) : UserJac :=
+  if normalized then
+    match jn with
+    | .dense m => .dense (m.map ds.unnormalizeGrad)
+    | .sparse s => .sparse (s.scaleCols (colFactorInv ds))
+  else jn
+
+section
+variable (ds : DS) (cfg : Cfg) (ssj : Bool) (val : String → List Rat → List Rat)
+  (ujac : String → List Rat → UserJac)
+
+/-- Container-level Jacobian in the caller's coordinates (what the sequence returns, viewed as a matrix). -/
+def jacCallerC (n : String) (x : List Rat) : Mat :=
+  (jacSeq ds cfg.normalized ssj (ujac n (phys ds cfg x))).view
+
+/-- Container-level recorded Jacobian. -/
+def jacRecordedC (n : String) (x : List Rat) : Mat :=
+  (recSeq ds cfg.normalized (jacSeq ds cfg.normalized ssj (ujac n (phys ds cfg x)))).view
+
+/-- `jac(x)` of a preprocessed function whose user Jacobian comes in a container. -/
+def evalJacC (st : St) (n : String) (x : List Rat) : St × Mat :=
+  let p := phys ds cfg x
+  let k := keyOf ds cfg x
+  if !cfg.useDb then
+    ({ st with calls := st.calls ++ [⟨n, .jacobian, k, p⟩] }, jacCallerC ds cfg ssj ujac n x)
+  else
+    match lookupOut st.db k (n, .jacobian) with
+    | some ju => (st, if cfg.normalized then ju.map ds.normalizeGrad else ju)
+    | none =>
+      let jn := jacCallerC ds cfg ssj ujac n x
+      let st' : St := { db := if cfg.storeJac then store st.db k (n, .jacobian) (jacRecordedC ds cfg ssj ujac n x)
+                              else st.db,
+                        calls := st.calls ++ [⟨n, .jacobian, k, p⟩] }
+      (st', jn)
+
+def stepC (st : St) (r : Req) : St :=
+  match r.kind with
+  | .value => (evalValue ds cfg val st r.name r.x).1
+  | .jacobian => (evalJacC ds cfg ssj ujac st r.name r.x).1
+
+def runC (st : St) (rs : List Req) : St := rs.foldl (stepC ds cfg ssj val ujac) st
+
+end
+
+/-- Edit prefix: the design space of a session is the result of a history of public edits. -/
+def spaceOf (tol : Rat) (ops : List Op) : DS := DS.run tol DS.empty ops
+
 /-! ### Polynomial function family used by the driver -/
 
 /-- One output row `c + a·x + q·x²` (component-wise square). -/
@@ -175,6 +290,20 @@ def fnJac (fs : List Fn) (n : String) (x : List Rat) : Mat :=
   match fs.find? (·.name == n) with
   | some f => f.rows.map (·.grad x)
   | none => []
+
+/-- The polynomial Jacobian in the container format the harness function returns: the non-zero
+    coefficients as stored entries (row-major for CSR/COO, column-major for CSC). -/
+def fnJacC (fs : List Fn) (fmts : List (String × Option SpFmt)) (dim : Nat) (n : String) (x : List Rat) : UserJac :=
+  let m := fnJac fs n x
+  match (fmts.find? (·.1 == n)).bind (·.2) with
+  | none => .dense m
+  | some fmt =>
+    let rowMajor : List (Nat × Nat × Rat) :=
+      (m.zipIdx.map (fun (row, i) => (row.zipIdx.filter (fun (v, _) => v != 0)).map (fun (v, j) => (i, j, v)))).flatten
+    let entries := match fmt with
+      | .csc => (List.range dim).flatMap (fun j => rowMajor.filter (fun e => e.2.1 == j))
+      | _ => rowMajor
+    .sparse ⟨fmt, m.length, dim, entries⟩
 
 /-- `MDOLinearFunction.normalize`: coefficients scaled by the range on normalisable components,
     value at zero = original function at the shift (lower bounds on normalisable components). -/
